@@ -180,8 +180,54 @@ def rule_c(R, ctx):
     R.floor("C16.c", "stores into list elements", n, 7)
 
 
+def rule_d(R, ctx):
+    Y = ctx.yrs
+    R.rule("C16.d", "R-GUARD canonical results: in yrs::ids a piece whose value was computed by Merge::merge of two operands' values "
+                    "is appended to a result list only through push_coalesced, or by a raw push that is decided by a look at the last "
+                    "entry (`result.last_mut()` None, or adjacency/equality compared) — pieces cut from two canonical lists can touch "
+                    "and carry equal merged values, and an uncoalesced result compares and encodes unequal to the canonical one")
+    n = 0
+    for p, fn in sorted(Y.fns.items()):
+        if not p.startswith("yrs::ids::") or not fn.mir:
+            continue
+        v = FnView(fn)
+        merged = set()
+        for cs in fn.calls():
+            if re.search(r"Merge(<.*>)?>?::merge$", cs.name) and cs.args:
+                r = mir_root(fn, cs.args[0])
+                if r[0] == "local":
+                    merged.add(r[1])
+        if not merged:
+            continue
+        for cs, site in ordinal_sites([c for c in fn.calls() if re.search(r"(Vec|SmallVec)(<.*>)?::push$", c.name) and len(c.args) == 2]):
+            d = mir_def(fn, cs.args[1])
+            val = None
+            if d and d[0] == "stmt" and "agg" in d[1] and len(d[1].get("ops", [])) == 2:
+                val = mir_root(fn, d[1]["ops"][1])
+            if not (val and val[0] == "local" and val[1] in merged):
+                continue
+            n += 1
+            looked = any(term_has_call(l.term, "re:::last(_mut)?$") for l in v.guards(cs.bb))
+            R.ob("C16.d", fn, site, looked,
+                 "the merged piece is pushed after a look at the last entry of the result" if looked else
+                 "a piece with a merged value is pushed without looking at the last entry of the result (no coalescing of adjacent "
+                 "equal pieces)", cs.loc())
+        for cs in fn.calls_to("yrs::ids::push_coalesced"):
+            if len(cs.args) == 3 and mir_root(fn, cs.args[2])[0] == "local" and mir_root(fn, cs.args[2])[1] in merged:
+                n += 1
+    R.floor("C16.d", "appends of merged pieces (raw pushes with a look at the last entry + push_coalesced calls)", n, 3)
+    pc = Y.fn("yrs::ids::push_coalesced")
+    pv = FnView(pc)
+    pushes = [c for c in pc.calls() if re.search(r"(Vec|SmallVec)(<.*>)?::push$", c.name)]
+    ok = bool(pushes) and all(any(term_has_call(l.term, "re:::last(_mut)?$") for l in pv.guards(c.bb)) or
+                              any(l.term[0] == "bin" and l.term[1] in ("Ge", "Lt", "Eq", "Gt", "Le") for l in pv.guards(c.bb)) for c in pushes)
+    ext = pc.field_writes("Range.end")
+    R.ob("C16.d", pc, "helper", bool(ext) and bool(pushes), "push_coalesced extends the last entry (%d store(s) to .end) or pushes (%d)" % (len(ext), len(pushes)))
+
+
 def check(ctx, R):
     R.run("C16.a", rule_a, ctx)
     R.run("C16.b", rule_b, ctx)
     R.run("C16.c", rule_c, ctx)
+    R.run("C16.d", rule_d, ctx)
     return {}
